@@ -106,7 +106,13 @@ class Driver:
     def make_value(self, kind, vid, n):
         import numpy as np
         tag = struct.pack("<q", vid)
-        if kind == "b":
+        if kind == "B":
+            # the IDENTICAL object every time (a result handed back, a shared constant)
+            shared = self.__dict__.setdefault("_shared_values", {})
+            if (vid, n) not in shared:
+                shared[(vid, n)] = tag + b"x" * max(0, n - 8)
+            v = shared[(vid, n)]
+        elif kind == "b":
             v = tag + b"x" * max(0, n - 8)
         elif kind == "s":
             v = "%016d" % vid + "y" * max(0, n - 16)
